@@ -32,7 +32,8 @@ def match_known(v, findings):
     for f in findings:
         if f.get('status') == 'fixed':
             continue          # fixed entries suppress nothing
-        if f.get('property') != v.get('prop'):
+        if v.get('prop') not in [f.get('property')] + list(
+                f.get('also_observable_under') or []):
             continue
         m = f.get('match') or {}
         ok = True
